@@ -1,11 +1,13 @@
 CONSTANTS
- MaxCycles = 4
+ MaxCycles = 6
  MaxFaults = 3
  Stores = {"noop","etcd"}
  HasLfs = FALSE
  FixBreakOnError = TRUE
  FixSentinel = TRUE
  FixLfsFail = TRUE
+ DevStaleCache = FALSE
+ DevTruncAccepted = FALSE
 INIT Init
 NEXT Next
 INVARIANTS C33_CheckpointSafe C33_CleanCycleDelivers TypeOK
